@@ -70,21 +70,24 @@ func rowListToMap(rows []types.RowImage, primaryKeyList []string) map[string]map
 	rowMap := make(map[string]map[string]interface{}, 0)
 	for _, row := range rows {
 		fieldMap := make(map[string]interface{}, 0)
-		var rowKey string
-		var firstUnderline bool
-
 		for _, column := range row.Columns {
-			for i, key := range primaryKeyList {
-				if column.ColumnName == key {
-					if firstUnderline && i > 0 {
-						rowKey += "_##$$_"
-					}
+			fieldMap[strings.ToUpper(column.ColumnName)] = column.Value
+		}
+
+		// the key lists the primary key values in primary key order, whatever
+		// the column order of the image is
+		var rowKey string
+		for i, key := range primaryKeyList {
+			if i > 0 {
+				rowKey += "_##$$_"
+			}
+			for j := range row.Columns {
+				if strings.EqualFold(row.Columns[j].ColumnName, key) {
 					// todo make value more accurate
-					rowKey = fmt.Sprintf("%v%v", rowKey, column.GetActualValue())
-					firstUnderline = true
+					rowKey = fmt.Sprintf("%v%v", rowKey, row.Columns[j].GetActualValue())
+					break
 				}
 			}
-			fieldMap[strings.ToUpper(column.ColumnName)] = column.Value
 		}
 		rowMap[rowKey] = fieldMap
 	}
